@@ -232,6 +232,48 @@ REGISTRY_READERS = {
 }
 
 
+MUTATORS = {"append", "extend", "insert", "add", "update", "setdefault", "pop", "remove", "clear", "sort", "reverse", "__setitem__"}
+
+
+def registry_value_growth(fn: ast.AST, attr: str, cls: str):
+    """sites where a value stored in the container `<x>.attr` is mutated in place (directly or through a local alias)."""
+    def is_container(n):
+        return isinstance(n, ast.Attribute) and n.attr == attr and isinstance(n.value, ast.Name) and n.value.id in ("self", "cls", cls)
+
+    def is_entry(n):
+        # d[k] | d.get(k...) | d.setdefault(k...)
+        if isinstance(n, ast.Subscript) and is_container(n.value):
+            return True
+        if isinstance(n, ast.Call) and isinstance(n.func, ast.Attribute) and n.func.attr in ("get", "setdefault") and is_container(n.func.value):
+            return True
+        return False
+
+    out = []
+    aliases = set()
+    nodes = sorted((n for n in ast.walk(fn) if hasattr(n, "lineno")), key=lambda n: (n.lineno, n.col_offset))
+    for n in nodes:
+        if isinstance(n, ast.Assign) and is_entry(n.value):
+            for t in n.targets:
+                if isinstance(t, ast.Name):
+                    aliases.add(t.id)
+        if isinstance(n, ast.Call) and isinstance(n.func, ast.Attribute) and n.func.attr == "setdefault" and is_container(n.func.value):
+            out.append((n, f"{attr}.setdefault(...) keeps an entry of an earlier run"))
+
+    def is_entry_or_alias(n):
+        return is_entry(n) or (isinstance(n, ast.Name) and n.id in aliases)
+
+    for n in nodes:
+        if isinstance(n, ast.Call) and isinstance(n.func, ast.Attribute) and n.func.attr in MUTATORS and is_entry_or_alias(n.func.value):
+            out.append((n, f"stored entry mutated by .{n.func.attr}()"))
+        if isinstance(n, ast.AugAssign) and is_entry_or_alias(n.target):
+            out.append((n, "stored entry grown by an augmented assignment"))
+        if isinstance(n, ast.Assign):
+            for t in n.targets:
+                if isinstance(t, ast.Subscript) and is_entry_or_alias(t.value):
+                    out.append((n, "element of a stored entry assigned"))
+    return out
+
+
 @rule("R14.3", "C14", "class-level mutable containers: inventory equals the reviewed table; registries are read only by their reviewed readers", min_instances=6)
 def r14_3(ctx):
     idx = get_index(ctx.env)
@@ -285,6 +327,14 @@ def r14_3(ctx):
                     readers.add(fi.qual)
         extra = readers - exp
         ctx.check(f"users of {c}.{a}", not extra, str(sorted(exp)), f"unreviewed users: {sorted(extra)}" if extra else "ok", "rzilcompiler/")
+    # entries of the shared registries are replaced as a whole, never grown: a second load / compilation with the same
+    # key must leave the same entry, not an accumulated one
+    for (c, a) in REGISTRY_READERS:
+        grow = []
+        for fi in idx.funcs.values():
+            grow += [(fi, n, why) for n, why in registry_value_growth(fi.node, a, c)]
+        ctx.check(f"entries of {c}.{a} are replaced, never grown in place", not grow, "d[key] = freshly built value",
+                  "; ".join(f"{fi.qual}:{n.lineno} {why}" for fi, n, why in grow[:3]) or "ok", fn_where(idx, grow[0][0]) if grow else "rzilcompiler/")
     # compile_insn must (re)compile, not return a cached result
     fi = idx.func("Compiler.compile_insn")
     rets = [p for p in paths_of(fi.node) if p.outcome == "return"]
